@@ -75,3 +75,9 @@ impl core::ops::Index<usize> for FrameBatch {
   #[verifier::external_body]
   fn index(&self, i: usize) -> (o: &Msg) ensures *o == self@[i as int] { unimplemented!() }
 }
+
+// Default (the real one is `FrameBatch::new()`): needed by std::mem::take
+impl core::default::Default for FrameBatch {
+  #[verifier::external_body]
+  fn default() -> (r: FrameBatch) ensures r@ =~= Seq::<Msg>::empty() { unimplemented!() }
+}
